@@ -23,6 +23,12 @@ Definition model_race (v : variant) (m0 m1 : meth) (m2 : option meth) (e f : nat
   let '(sh, ls) := run v (race_schedule e f) (sh0, [start m0; start m1; t2]) in
   mk_race (crashed_at ls 0) (crashed_at ls 1) (crashed_at ls 2) (ar sh) (ap sh) (fs sh) (fin sh).
 
+(** an arbitrary schedule over up to three threads (one method each), then every thread runs to completion *)
+Definition model_sched (v : variant) (ms : list meth) (sched : list nat) : race_obs :=
+  let acts := map AStep sched ++ flat_map (fun i => repeat (AStep i) 12) (seq 0 (length ms)) in
+  let '(sh, ls) := run v acts (sh0, map start ms ++ repeat idle_thread (3 - length ms)) in
+  mk_race (crashed_at ls 0) (crashed_at ls 1) (crashed_at ls 2) (ar sh) (ap sh) (fs sh) (fin sh).
+
 Definition eq_race (a b : race_obs) : bool :=
   Bool.eqb (crashed0 a) (crashed0 b) && Bool.eqb (crashed1 a) (crashed1 b) && Bool.eqb (crashed2 a) (crashed2 b) &&
   Bool.eqb (ar_ a) (ar_ b) && Bool.eqb (ap_ a) (ap_ b) && Bool.eqb (fs_ a) (fs_ b) && Nat.eqb (handed a) (handed b).
